@@ -4,6 +4,8 @@ use std::sync::Arc;
 
 use crate::driver::{Batch, Plan};
 use crate::scen::{Scenario, Tier};
+use crate::scen_foreign::{ForeignOpen, LazyOpen, PartialOpen};
+use crate::scen_hist::History;
 use crate::scen_life::Lifecycle;
 
 pub const ALL: &[&str] = &["C01", "C02", "C03", "C04", "C06", "C08", "C09", "C10", "C11", "C12", "C13", "C14", "C15", "C16", "C17", "C18", "C19", "C20"];
@@ -30,8 +32,18 @@ pub fn plan(prop: &str, tier: Tier) -> Option<Plan> {
             assumptions.push("validator written from the v3 specification text; shares no code with the crate".into());
             ("C02", "exploration", vec![b(Lifecycle { prop: "C02", huge_pct: 2 }, 2500, 150_000, t)])
         }
-        "C10" => ("C10", "exploration", vec![b(Lifecycle { prop: "C10", huge_pct: 1 }, 2000, 100_000, t)]),
+        "C10" => {
+            assumptions.push("64-bit content-hash collisions among generated contents are assumed not to occur".into());
+            ("C10", "exploration", vec![b(Lifecycle { prop: "C10", huge_pct: 1 }, 2000, 100_000, t), b(History { prop: "C10" }, 6000, 400_000, t)])
+        }
+        "C04" => ("C04", "exploration", vec![b(History { prop: "C04" }, 12_000, 1_000_000, t)]),
         "C06" => ("C06", "exploration", vec![b(Lifecycle { prop: "C06", huge_pct: 40 }, 150, 6000, t)]),
+        "C03" => {
+            assumptions.push("foreign archives come from the independent spec-level writer; each generated image is first accepted by the independent validator".into());
+            ("C03", "exploration", vec![b(ForeignOpen, 2000, 120_000, t)])
+        }
+        "C11" => ("C11", "exploration", vec![b(PartialOpen, 1200, 100_000, t)]),
+        "C20" => ("C20", "exploration", vec![b(LazyOpen, 2000, 150_000, t)]),
         _ => return None,
     };
     Some(Plan { prop: p, level, batches, assumptions, real: REAL.to_vec(), stubs: STUBS.to_vec() })
